@@ -432,6 +432,11 @@ fn probe_points(stream: &[Entry]) -> Vec<Vec<u8>> {
     }
     pts.sort();
     pts.dedup();
+    if keys.len() > 50 {
+        // bulk streams: three probe points keep the bound enumeration proportionate
+        let n = pts.len();
+        return vec![pts[1].clone(), pts[n / 2].clone(), pts[n - 1].clone()];
+    }
     if pts.len() > 9 {
         // keep the enumeration bounded for long streams: first 4, last 4 and one in the middle
         let n = pts.len();
@@ -565,17 +570,28 @@ pub fn probe_table(
                 .cloned()
                 .collect();
             let n = exp.len();
-            // patterns: bit i = 1 -> next_back at step i; n+1 steps (the last must return None)
-            let patterns: Vec<u32> = if full_interleavings && n <= 4 {
-                (0..(1u32 << (n + 1))).collect()
+            // patterns: step i takes next_back iff pat(i); n+1 steps (the last must return None)
+            #[derive(Clone, Copy)]
+            enum Pat {
+                Mask(u32),
+                AllFront,
+                AllBack,
+                Alt(bool),
+                Pairs(bool),
+            }
+            let patterns: Vec<Pat> = if full_interleavings && n <= 4 {
+                (0..(1u32 << (n + 1))).map(Pat::Mask).collect()
+            } else if n <= 12 {
+                vec![Pat::AllFront, Pat::AllBack, Pat::Alt(false), Pat::Alt(true), Pat::Pairs(false), Pat::Pairs(true)]
             } else {
-                let all_f = 0u32;
-                let all_b = (1u32 << (n + 1)) - 1;
-                let alt1 = 0xAAAA_AAAAu32 & all_b;
-                let alt2 = 0x5555_5555u32 & all_b;
-                let mut v = vec![all_f, all_b, alt1, alt2];
-                v.dedup();
-                v
+                vec![Pat::AllFront, Pat::AllBack, Pat::Alt(true)]
+            };
+            let is_back = |p: Pat, step: usize| match p {
+                Pat::Mask(m) => m & (1 << step) != 0,
+                Pat::AllFront => false,
+                Pat::AllBack => true,
+                Pat::Alt(b) => (step % 2 == 1) == b,
+                Pat::Pairs(b) => ((step / 2) % 2 == 1) == b,
             };
             for pat in patterns {
                 let lo_b: Bound<lsm_tree::UserKey> = match lo {
@@ -592,7 +608,7 @@ pub fn probe_table(
                 let (mut f, mut b) = (0usize, n);
                 stats.probes += 1;
                 for step in 0..=n {
-                    let back = pat & (1 << step) != 0;
+                    let back = is_back(pat, step);
                     let got = if back { it.next_back() } else { it.next() };
                     let expect = if f < b {
                         if back {
@@ -613,7 +629,7 @@ pub fn probe_table(
                         return Err((
                             "range-mismatch".into(),
                             format!(
-                                "range({lo:?},{hi:?}) pattern {pat:b} step {step} ({}) returned {got:?}, expected {expect:?}",
+                                "range({lo:?},{hi:?}) step {step} ({}) returned {got:?}, expected {expect:?}",
                                 if back { "next_back" } else { "next" }
                             ),
                         ));
